@@ -29,7 +29,9 @@ Inductive case :=
     (* the constant pool of a written class, in file order, and its constant_pool_count *)
 | CLdc (is2 : bool) (index : N) (form : N)
     (* an ldc instruction in the written code: loadable is long/double, pool index, opcode *)
-| CFrames (fs : list (option N)) (written : N).
+| CFrames (fs : list (option N)) (written : N)
+| CBsm (entries : list (list N)).
+    (* the BootstrapMethods table of a written class, in file order (method_ref, arguments) *)
     (* which instructions of a method carry a frame in the tree; number of stack_map_frame entries written *)
 
 Definition zeqN (z : Z) (n : N) : bool := z =? Z.of_N n.
@@ -69,6 +71,24 @@ Definition check_pool (es : list pentry) (count : N) : bool :=
   | Err => false
   end.
 
+Fixpoint bput_all (t : bsm) (es : list (list N)) : res (bsm * list Z) :=
+  match es with
+  | [] => Ok (t, [])
+  | e :: r => match bsm_put t e with
+              | Ok (t', i) => match bput_all t' r with Ok (t'', is) => Ok (t'', i :: is) | Err => Err end
+              | Err => Err
+              end
+  end.
+Fixpoint zseq (i : Z) (n : nat) : list Z := match n with O => [] | S n' => i :: zseq (i + 1) n' end.
+Definition check_bsm (es : list (list N)) : bool :=
+  match bput_all bsm_new es with
+  | Ok (t, is) =>
+      list_eqb Z.eqb is (zseq 0 (length es))
+      && match bput_all t es with Ok (t', is') => list_eqb Z.eqb is is' && (zlen (b_inner t') =? zlen es) | Err => false end
+      && forallb (fun ie => match bsm_get t (fst ie) with Some e => str_eqb e (snd ie) | None => false end) (combine is es)
+  | Err => false
+  end.
+
 Definition check (c : case) : bool :=
   match c with
   | CWrite hasmax rb last tb r =>
@@ -85,5 +105,6 @@ Definition check (c : case) : bool :=
       | LDC_W _ => (form =? 19)%N
       | LDC2_W _ => (form =? 20)%N
       end
+  | CBsm es => check_bsm es
   | CFrames fs n => (N.of_nat (length (written_frames fs (map (fun _ => 0%Z) fs))) =? n)%N
   end.
